@@ -1006,6 +1006,18 @@ func (g *gen) program() (string, []srcModule) {
 		g.addTop(fmt.Sprintf("ze := 0\nfe := func(x) { if x == %d { throw \"bad item\" }; ze += x; return ze }\nlog(\x05fe\x020, 1, 2, 3, %d\x03, ze)\n", bad, g.t.Draw(4)))
 	}
 	if g.cfg.CallMark && g.t.Bool(1, 3) {
+		// a function that hands out a container it keeps: the caller's writes through the result are the keeper's
+		if g.t.Bool(1, 2) {
+			g.addTop("zreg := {n: 0}\nzget := func() { return zreg }\nzr := \x01zget\x02\x03\nzr.n = " + fmt.Sprint(1+g.t.Draw(9)) + "\nlog(zreg.n, zget().n)\n")
+		} else {
+			g.addTop("zarr := [0, 1]\nzga := func() { return zarr }\nza := \x01zga\x02\x03\nza[1] = " + fmt.Sprint(2+g.t.Draw(9)) + "\nlog(zarr, zga())\n")
+		}
+	}
+	if g.cfg.CallMark && g.t.Bool(1, 10) {
+		// a long history of invocations on one root VM
+		g.addTop(fmt.Sprintf("zlf := func(x) { return x + 1 }\nzls := 0\nfor zli := 0; zli < %d; zli++ { zls += \x01zlf\x02zli\x03 }\nlog(zls)\n", 260+g.t.Draw(400)))
+	}
+	if g.cfg.CallMark && g.t.Bool(1, 3) {
 		// a stateful module whose first import of the run may happen inside a function invoked from Go
 		g.addTop("fzm := func() { zm := import(\"modA\"); return zm.inc() }\n" +
 			"log(\x01fzm\x02\x03, \x01fzm\x02\x03)\nlog(import(\"modA\").get())\n")
